@@ -101,6 +101,52 @@ let sip_sha3_model (ws : string list) : string option = match ws with
     Some (agree_b (out (Model.keccak_f lanes)) (out (Model.keccakf_cpp lanes)))
   | _ -> None
 
+
+(* ---- AES (model/CryptoAES.v) ---- *)
+let aes_model (ws : string list) : string option = match ws with
+  | ["aes256_enc"; k; b] -> Some (hex (Model.aes256_encrypt_block_spec (unhex k) (unhex b)))
+  | ["aes256_dec"; k; b] -> Some (hex (Model.aes256_decrypt_block_spec (unhex k) (unhex b)))
+  | ["aes256cbc_enc"; k; iv; d; pad] ->
+    let key = unhex k and iv = unhex iv and data = unhex d and pad = (pad = "1") in
+    let m = Model.cbc_encrypt key iv data pad in
+    let n = List.length data in
+    (* where SP 800-38A / RFC 5652 prescribe the output, the model must also agree with the specification
+       (theorems cbc_encrypt_is_sp80038a / cbc_encrypt_nopad_is_sp80038a) *)
+    if pad && n > 0 then Some (agree (Model.cbc_encrypt_spec key iv (Model.pkcs7_pad data)) m)
+    else if (not pad) && n mod 16 = 0 then Some (agree (Model.cbc_encrypt_spec key iv data) m)
+    else Some (hex m)
+  | ["aes256cbc_dec"; k; iv; d; pad] ->
+    let key = unhex k and iv = unhex iv and data = unhex d and pad = (pad = "1") in
+    let m = Model.cbc_decrypt key iv data pad in
+    let n = List.length data in
+    if n mod 16 <> 0 then Some (hex m)
+    else
+      let plain = Model.cbc_decrypt_spec key iv data in
+      if not pad then Some (agree plain m)
+      else Some (agree (match Model.pkcs7_unpad plain with Some d -> d | None -> []) m)
+  | _ -> None
+
+(* ---- composite hashers, SHA256D64 dispatch, limb-level Poly1305 ---- *)
+let wrap_model (ws : string list) : string option = match ws with
+  | ["hash256"; m; ch] -> let msg = unhex m in
+    Some (agree (Model.hash256_spec msg) (Model.chash256_stream z64 z64 (split_chunks msg (sizes ch))))
+  | ["hash160"; m; ch] -> let msg = unhex m in
+    Some (agree (Model.hash160_spec msg) (Model.chash160_stream z64 z64 (split_chunks msg (sizes ch))))
+  | ["taggedhash"; t; m; ch] -> let tag = unhex t and msg = unhex m in
+    Some (agree (Model.tagged_hash_spec tag msg) (Model.tagged_hash_stream z64 tag (split_chunks msg (sizes ch))))
+  | ["bip32hash"; cc; n; h; d] ->
+    let cc = unhex cc and d = unhex d and hb = n_of_int (int_of_string h) and n = z_of_string n in
+    Some (agree (Model.bip32_hash_spec cc n hb d) (Model.bip32_hash_model z128 cc n hb d))
+  | ["murmur3"; seed; d] -> Some (string_of_z (Model.murmurhash3 (z_of_string seed) (unhex d)))
+  | ["aes256cbc_pt"; k; iv; p; pad] ->
+    (* CBC-encrypt the given plaintext blocks without padding, then decrypt with the given padding flag *)
+    let key = unhex k and iv = unhex iv and plain = unhex p and pad = (pad = "1") in
+    let ct = Model.cbc_encrypt key iv plain false in
+    let out = Model.cbc_decrypt key iv ct pad in
+    let spec = if not pad then plain else (match Model.pkcs7_unpad plain with Some d -> d | None -> []) in
+    Some (hex ct ^ " " ^ (if List.length plain mod 16 = 0 then agree spec out else hex out))
+  | _ -> None
+
 let model _ l = match words l with
   | ["sha256"; m; ch] -> md "sha256" Model.sha256_spec Model.csha256_stream m ch
   | ["sha1"; m; ch] -> md "sha1" Model.sha1_spec Model.csha1_stream m ch
@@ -108,7 +154,11 @@ let model _ l = match words l with
   | ["ripemd160"; m; ch] -> md "ripemd160" Model.ripemd160_spec Model.cripemd160_stream m ch
   | ["sha256d64"; m] ->
     let inp = unhex m in
-    hex (Model.sha256d64_spec (nat_of_int (List.length inp / 64)) inp)
+    let nb = nat_of_int (List.length inp / 64) in
+    let spec = Model.sha256d64_spec nb inp in
+    let ok = List.for_all (fun (a, b, c) -> Model.sha256d64_dispatch a b c nb inp = spec)
+        [(true, true, true); (false, true, false); (false, false, true); (false, false, false)] in
+    if ok then hex spec else "MODEL-INCONSISTENT sha256d64 dispatch"
   | ["hmac256"; k; m; ch] ->
     let key = unhex k and msg = unhex m in
     let s = memo ("hmac256" ^ k ^ "|" ^ m) (fun () -> Model.hmac_sha256_spec key msg) in
@@ -137,7 +187,9 @@ let model _ l = match words l with
     String.concat "," (List.map hex outs)
   | ["poly1305"; k; m; ch] ->
     let key = unhex k and msg = unhex m in
-    agree (Model.poly1305_spec key msg) (Model.poly1305_stream z16 key (split_chunks msg (sizes ch)))
+    let r = agree (Model.poly1305_spec key msg) (Model.poly1305_stream z16 key (split_chunks msg (sizes ch))) in
+    let limb = Model.donna_stream z16 key (split_chunks msg (sizes ch)) in
+    if hex limb = r then r else "MODEL-INCONSISTENT limbs=" ^ hex limb ^ " spec=" ^ r
   | ["aead_enc"; k; nf; ns; aad; pl; len1] ->
     let key = unhex k and aad = unhex aad and pl = unhex pl and l1 = int_of_string len1 in
     let spec = Model.aead_encrypt_spec key (Model.bip324_nonce (z_of_string nf) (z_of_string ns)) aad pl in
@@ -182,7 +234,9 @@ let model _ l = match words l with
           f := f'; (match res with Some (p1, p2) -> p1 = p && p2 = [] | None -> false)) outs ps in
       String.concat "," (List.map hex outs) ^ (if ok then " dec=ok" else " dec=FAIL")
     end
-  | ws -> (match sip_sha3_model ws with Some r -> r | None -> "BADCASE")
+  | ws -> (match sip_sha3_model ws with Some r -> r | None ->
+           (match aes_model ws with Some r -> r | None ->
+              (match wrap_model ws with Some r -> r | None -> "BADCASE")))
 
 let holds _ _ _ = "na"
 let () = main_loop ~model ~holds
